@@ -455,23 +455,43 @@ def zero_id_specs(max_n: int, alphabet=("a", "b")):
                 yield s2
 
 
+def string_id_specs(max_n: int):
+    """Two or three nodes carry explicit *string* data_ids that differ only in characters outside [A-Za-z0-9_]
+    ('lib-x', 'lib_x', 'lib.x'): distinct ids are distinct graph nodes however an exporter spells its keys."""
+    import itertools
+
+    ids = ("lib-x", "lib_x", "lib.x")
+    for sp in gen.plain_specs(max_n, min_n=2, alphabet=("a", "b")):
+        n = len(sp)
+        for pick in itertools.combinations(range(n), 2 if n < 3 else 3):
+            nodes = list(sp.nodes)
+            for t, k in enumerate(pick):
+                p, lab, _d, kd = nodes[k]
+                nodes[k] = (p, lab, ids[t], kd)
+            s2 = gen.Spec(tuple(nodes))
+            if gen.sibling_ids_unique(s2):
+                yield s2
+
+
 def inputs(tier: str):
     if tier == "quick":
         groups = {
+            "string ids differing in punctuation only": list(string_id_specs(3)),
             "plain": list(gen.plain_specs(4)),
             "typed": list(gen.typed_specs(3, alphabet=("a", "b", "c"))) + list(gen.typed_specs(4, min_n=4)),
             "equal data under distinct ids": list(gen.eqpair_specs(3)),
             "data_id 0": list(zero_id_specs(3)),
         }
-        words = "plain forests <= 4 nodes over {a,b,c}; typed forests <= 3 nodes over {a,b,c} and with 4 nodes over {a,b} (at most 2 siblings) x kinds {k1,k2}; equal-data pairs <= 3 nodes; one node with data_id 0 (<= 3 nodes)"
+        words = "plain forests <= 4 nodes over {a,b,c}; typed forests <= 3 nodes over {a,b,c} and with 4 nodes over {a,b} (at most 2 siblings) x kinds {k1,k2}; equal-data pairs <= 3 nodes; one node with data_id 0 (<= 3 nodes); explicit string ids lib-x / lib_x / lib.x on 2..3 nodes (<= 3 nodes)"
     else:
         groups = {
+            "string ids differing in punctuation only": list(string_id_specs(4)),
             "plain": list(gen.plain_specs(5)),
             "typed": list(gen.typed_specs(4, alphabet=("a", "b", "c"))),
             "equal data under distinct ids": list(gen.eqpair_specs(4)),
             "data_id 0": list(zero_id_specs(4)),
         }
-        words = "plain forests <= 5 nodes over {a,b,c}; typed forests <= 4 nodes over {a,b,c} x kinds {k1,k2}; equal-data pairs <= 4 nodes; one node with data_id 0 (<= 4 nodes)"
+        words = "plain forests <= 5 nodes over {a,b,c}; typed forests <= 4 nodes over {a,b,c} x kinds {k1,k2}; equal-data pairs <= 4 nodes; one node with data_id 0 (<= 4 nodes); explicit string ids lib-x / lib_x / lib.x on 2..3 nodes (<= 4 nodes)"
     return groups, words
 
 
